@@ -464,7 +464,8 @@ BOUNDS = dict(
           'S+, C} and all 64 over {RO, O1, O2, RP}; all 196 four-step histories (administration, regimen, two '
           'of {S+, S-, C, Co, O1, RP, D1}); '
           'operations over {Ad, Ai, D1, D2, O1, O2, RP, RO, S+, S-, C, Co} '
-          'plus 5 targeted histories of length 4-6; ReducedMechanisticModel '
+          'plus 8 targeted histories of length 4-6 and 52 histories of 2-4 '
+          'operations with a second rename of the same parameter; ReducedMechanisticModel '
           'over the dosed model: all histories of <= 2 operations over {fix '
           'p0, fix p1, re-fix p0, release p0, release p1, swap in one call, '
           'release all, S+, S-, continue with a copy, keep a copy}, the '
